@@ -815,7 +815,7 @@ func TestC08Reader(t *testing.T) {
 		st := s.stream()
 		chunk := 1 << 20
 		if s.Heavy {
-			chunk = 24
+			chunk = 16 // 16 x 2 GiB stays below the per-process allocation budget
 		}
 		chunked(c08Job{Kind: "ext", Index: i, Cuts: cuts}, "ext: "+s.Name, numRuns(len(st), cuts >= 2 && len(st) <= c08TwoCutMax), chunk)
 		rep.CountDistinct("ext:" + s.Name)
@@ -856,7 +856,7 @@ func TestC08Reader(t *testing.T) {
 				rep.Cap("worker exceeded its wall budget on " + what)
 				continue
 			}
-			if r.Crash != "" {
+			if r.Crash != "" || len(r.Data) == 0 { // died (a deep job's stderr goes to its ErrFile, so Crash may be empty)
 				var j c08Job
 				json.Unmarshal(jobs[r.ID].Data, &j)
 				cause := "other"
